@@ -773,8 +773,10 @@ func negFacts(fn *ssa.Function, isP func(ssa.Value) bool, f an.Facts, depth int)
 					reach := an.Explore(callee, nil, cf, nil)
 					never := len(reach.Returns()) > 0
 					for _, ret := range reach.Returns() {
-						if len(ret.Results) != 1 || reach.EvalAt(ret.Results[0], ret) != an.False {
-							never = false
+						for _, alt := range reach.Alts(ret) {
+							if len(ret.Results) != 1 || reach.EvalAlt(alt, 0) != an.False {
+								never = false
+							}
 						}
 					}
 					if never {
@@ -812,8 +814,10 @@ func c09validate(c *Ctx) {
 		reach := an.Explore(fn, nil, f, nil)
 		bad := false
 		for _, ret := range reach.Returns() {
-			if reach.EvalAt(ret.Results[0], ret) != an.False {
-				bad = true
+			for _, alt := range reach.Alts(ret) {
+				if reach.EvalAlt(alt, 0) != an.False {
+					bad = true
+				}
 			}
 		}
 		r.Check(n > 0 && !bad, "VALIDATE", fkey(fn)+"/rejects-negative/"+fld, c.Pos(fn.Pos()), "a negative "+fld+" is rejected", sprintf("a strategy with a negative %s can be reported valid (%d tests of the field recognised): the formulas multiply capacity by it, publishing a negative (or cap-less) amount", fld, n))
